@@ -11,7 +11,12 @@ def obligations(ctx):
     Lm = 131 if ctx.thorough else 67
     # a few long inputs around the wrap points of narrow counters (8-, 11- and 16-bit element/block counts)
     extra = [255, 256, 257, 258, 2047, 2049, 65537, 65545] + ([511, 513, 1023, 1025, 4097, 32769, 65535, 131075] if ctx.thorough else [])
-    return [Ob('%s/L%d' % (v, L), poseidon.ob_lh, (v, L), weight=L + 1) for v in ('seq', 'avx', 'avx512') for L in list(range(0, Lm + 1)) + extra]
+    obs = [Ob('%s/L%d' % (v, L), poseidon.ob_lh, (v, L), weight=L + 1) for v in ('seq', 'avx', 'avx512') for L in list(range(0, Lm + 1)) + extra]
+    # placements of the caller's buffers that the one-row variants support: the digest written over the first / the last four input words
+    for v in ('seq', 'avx'):
+        for L in [0, 1, 3, 4, 5, 7, 8, 9, 12, 15, 16, 17, 23, 24, 25, 31, 33, 40, 41, 44] + ([64, 65, 67] if ctx.thorough else []):
+            for place in ('inplace', 'tail'): obs.append(Ob('%s/L%d/%s' % (v, L, place), poseidon.ob_lh, (v, L, place), weight=L + 1))
+    return obs
 def validate(ctx):
     rng = ctx.rng('C07'); n = 0; bad = []
     from .. import core, kern
